@@ -58,6 +58,7 @@ def shards(tier):
     out.append({"kind": "phrase-terminators"})
     out.append({"kind": "sequences"})
     out.append({"kind": "dict-order"})
+    out.append({"kind": "undecodable"})
     out.append({"kind": "large"})
     return out
 
@@ -133,7 +134,7 @@ def build(cipher, mac, kdf, rounds, salt_len, phrase, cfg, layout, data_cipher=N
     wrong, _ = B.pair_text(phrase + "#other", kdf, cipher, rounds, salt, wrong_mac or mac, data_cipher, B.det_bytes("otherkey", B.KEYLEN[data_cipher]),
                            B.det_bytes("iv2", 16), **({} if sameid else {"pid": "other"}))
     pairs = {"one": [right], "wrong-right": [wrong, right], "right-wrong": [right, wrong], "three": [wrong, right, wrong]}[layout]
-    data_blob = B.seal(dk, cfg.encode(), mac, B.det_bytes("iv3", 16))
+    data_blob = B.seal(dk, cfg if isinstance(cfg, bytes) else cfg.encode(), mac, B.det_bytes("iv3", 16))
     outer = [(".encoding", "UTF-8"), ("displayName", "Encrypted VM"), ("memsize", "1")]
     return B.vmx_text(pairs, data_blob, outer), outer, rblob, data_blob, salt, dk
 
@@ -157,6 +158,11 @@ def run_shard(shard, ctx):
             for lay in ("one", "wrong-right"):
                 run_case({"kind": "positive", "cipher": CIPHERS[n % 3], "mac": MACS[n % len(MACS)], "kdf": KDFS[n % 2], "rounds": 2 + n % 3,
                           "salt": 16, "phrase": 1, "len": 23, "layout": lay, "dict_order": list(order)}, ctx)
+    elif kind == "undecodable":
+        for n, (c, m) in enumerate(itertools.product(CIPHERS, MACS)):
+            for line in (2, 4):
+                for all_after in (False, True):
+                    run_case({"kind": "undecodable", "cipher": c, "mac": m, "line": line, "all_after": all_after}, ctx)
     elif kind == "sequences":
         for c, m, kd in itertools.product(CIPHERS, MACS, KDFS):
             for seq in itertools.product("RWT", repeat=3):
@@ -254,6 +260,31 @@ def run_case(case, ctx):
     ctx.model({k: v for k, v in case.items() if k != "deltas"})
     ctx.sample({k: v for k, v in case.items() if k != "deltas"})
     with ctx.watch(case, 300):
+        if case["kind"] == "undecodable":
+            # an authentic configuration whose text is not UTF-8 from some line on (written by a host with another code page): if
+            # unlocking fails on it, it fails as a whole -- nothing of the earlier lines is merged into the visible configuration
+            lines = [b'guestOS = "windows9-64"', b'memsize = "4096"', b'annotation = "caf\xe9 du coin"', b'numvcpus = "2"',
+                     b'displayName = "\xff\xfe"']
+            bad = case["line"]
+            cfgb = b"\n".join(ln if (i == bad or (case["all_after"] and i > bad)) else ln.replace(b"\xe9", b"e").replace(b"\xff\xfe", b"x")
+                              for i, ln in enumerate(lines)) + b"\n"
+            text, outer, rblob, dblob, salt, dk = build(case["cipher"], case["mac"], KDFS[0], 1, 16, "password", cfgb, "one")
+            v = VMX.parse(text)
+            before = dict(v.attr)
+            ctx.transitions += 1
+            ctx.states += 1
+            ctx.nontrivial += 1
+            try:
+                v.unlock_with_phrase("password")
+            except Exception as e:
+                if dict(v.attr) != before:
+                    ctx.violation(case, {"subject": "vmx.unlock", "kind": "failed-unlock-changed-configuration", "exc": type(e).__name__},
+                                  {"added": sorted(set(v.attr) - set(before))[:6]})
+                    return
+                ctx.outcome("refused")
+                return
+            ctx.outcome("unlocked")  # (a reader that decodes such text some other way may well succeed)
+            return
         if case["kind"] == "sequence":
             # one VMX object, three unlock attempts in every order of {Right passphrase, Wrong passphrase, Tampered data}:
             # a right attempt always succeeds, a wrong one always raises and leaves attr as it was, whatever came before
